@@ -29,6 +29,8 @@ type Profile struct {
 	NoReplay    bool           // never reuse bytes/proofs of other ops (needed for isolation comparisons)
 	PlantPct    int            // percentage of refresh ops preceded by planting a day-old cosignature
 	DrvFaults   bool           // faults may also hit SQL driver calls
+	MixOldPct   int            // percentage of ops (of any class) whose old size is replaced by a hostile one: requests that fall under two rules at once
+	NonCanonPct int            // percentage of log-signed checkpoints written non-canonically (leading zeros in the size, spare base64 bits set)
 }
 
 // ProdWKeys is the key set cmd/omniwitness configures: legacy + cosignature/v1 with
@@ -244,6 +246,11 @@ func GenHist(t *rapid.T, p Profile) *HistCase {
 			pl.Kind, pl.Note, pl.Faults = "plant", "plant", nil
 			pl.TsAgo = int64(rapid.SampledFrom([]int{86400, 3600, 5, 400000000}).Draw(t, "plantago"))
 			c.Ops = append(c.Ops, pl)
+			if rapid.Bool().Draw(t, "replaystored") {
+				// resubmit exactly the bytes the witness holds (its own, day-old, cosigned output)
+				op.Cp = CpSpec{Replay: len(c.Ops), ReplayOut: true, Branch: -1, Origin: -1, Signer: -1}
+				op.Note = "refresh"
+			}
 		}
 		c.Ops = append(c.Ops, op)
 	}
@@ -295,26 +302,7 @@ func genOp(t *rapid.T, p Profile, w map[string]int, i, nlogs, nb, nwk int) Op {
 		}
 	case "wrongold":
 		grow()
-		switch rapid.IntRange(0, 8).Draw(t, "oldk") {
-		case 0:
-			op.Old = SizeSpec{Rel: "abs", Abs: 0}
-		case 1:
-			op.Old = SizeSpec{Rel: "cur", N: 1}
-		case 2:
-			op.Old = SizeSpec{Rel: "cur", N: -1}
-		case 3:
-			op.Old = SizeSpec{Rel: "sub"}
-		case 4:
-			op.Old = SizeSpec{Rel: "sub", N: 1}
-		case 5:
-			op.Old = SizeSpec{Rel: "abs", Abs: 1 << 63}
-		case 6:
-			op.Old = SizeSpec{Rel: "abs", Abs: ^uint64(0)}
-		case 7:
-			op.Old = SizeSpec{Rel: "abs", Abs: uint64(rapid.IntRange(0, 50).Draw(t, "oldabs"))}
-		default:
-			op.Old = SizeSpec{Rel: "cur", N: int64(rapid.IntRange(-5, 5).Draw(t, "oldrel"))}
-		}
+		op.Old = genWrongOld(t)
 		if rapid.Bool().Draw(t, "oldproofmatch") {
 			// proof that is correct for the claimed old size
 			op.Proof.From = &SizeSpec{Rel: op.Old.Rel, N: op.Old.N, Abs: op.Old.Abs}
@@ -395,6 +383,7 @@ func genOp(t *rapid.T, p Profile, w map[string]int, i, nlogs, nb, nwk int) Op {
 		}
 	case "mismatch":
 		// same size as held, different root: another branch's tree or an unknown root
+		op.Cp.MinSize = 0
 		op.Cp.Size = SizeSpec{Rel: "cur"}
 		if rapid.Bool().Draw(t, "mmreal") {
 			op.Cp.Branch = rapid.IntRange(0, nb-1).Draw(t, "mmbranch")
@@ -416,7 +405,39 @@ func genOp(t *rapid.T, p Profile, w map[string]int, i, nlogs, nb, nwk int) Op {
 		}
 		op.Cp.Ext, op.Cp.Extra = genExtra(t, p, nlogs, nwk)
 	}
+	if cls != "wrongold" && Pct(t, p.MixOldPct, "mixold") {
+		op.Old = genWrongOld(t)
+		op.Note += "+old"
+	}
+	if op.Cp.Replay == 0 && op.Cp.Mut == nil && Pct(t, p.NonCanonPct, "noncanon") {
+		op.Cp.NonCanon = rapid.IntRange(1, 3).Draw(t, "noncanonk")
+	}
 	return op
+}
+
+func genWrongOld(t *rapid.T) SizeSpec {
+	switch rapid.IntRange(0, 9).Draw(t, "oldk") {
+	case 0:
+		return SizeSpec{Rel: "abs", Abs: 0}
+	case 1:
+		return SizeSpec{Rel: "cur", N: 1}
+	case 2:
+		return SizeSpec{Rel: "cur", N: -1}
+	case 3:
+		return SizeSpec{Rel: "sub"}
+	case 4:
+		return SizeSpec{Rel: "sub", N: 1}
+	case 5:
+		return SizeSpec{Rel: "abs", Abs: 1 << 63}
+	case 6:
+		return SizeSpec{Rel: "abs", Abs: ^uint64(0)}
+	case 7:
+		return SizeSpec{Rel: "abs", Abs: uint64(rapid.IntRange(0, 50).Draw(t, "oldabs"))}
+	case 8:
+		return SizeSpec{Rel: "sub", N: int64(rapid.SampledFrom([]int{1, 2, 1000}).Draw(t, "oldsubd"))}
+	default:
+		return SizeSpec{Rel: "cur", N: int64(rapid.IntRange(-5, 5).Draw(t, "oldrel"))}
+	}
 }
 
 var mutKinds = []string{"bitflip", "truncate", "dropline", "dupline", "swaplines", "setbyte", "insert", "delete", "sigbyte", "sigbyte", "signame", "sighash", "textbyte", "textbyte", "nosep", "crlf"}
